@@ -133,6 +133,8 @@ type Exec struct {
 	heapPrefix string
 	mayCallMemo map[*ssa.Function]map[string]bool
 	mayCallAll map[*ssa.Function]bool
+	guards     []guard
+	inSpec     int
 	qmu        sync.Mutex
 	preferInline bool
 	checkLocks bool
